@@ -161,16 +161,37 @@ def config_suffixes():
 
 
 def repo_ignore_sources():
+    """_load_repo_ignores: .thailintignore, then the first existing file of a literal tuple of config names (the loop must stop
+    at the first existing one); older shape: two `project_root / "<name>"` tests with early returns"""
     f = find_func(parse("src/linter_config/ignore.py"), "_load_repo_ignores")
-    names = sorted((n.lineno, _const_str(n.right)) for n in ast.walk(f)
-                   if isinstance(n, ast.BinOp) and isinstance(n.op, ast.Div) and ast.unparse(n.left) == "project_root")
-    names = [s for _, s in names]
-    if None in names or not names:
-        raise Unsupported("_load_repo_ignores: file names")
+    direct = sorted((n.lineno, _const_str(n.right)) for n in ast.walk(f)
+                    if isinstance(n, ast.BinOp) and isinstance(n.op, ast.Div) and ast.unparse(n.left) == "project_root" and _const_str(n.right) is not None)
+    names = [s for _, s in direct]
+    loops = [n for n in ast.walk(f) if isinstance(n, ast.For)]
+    if loops:
+        if len(loops) != 1 or not isinstance(loops[0].iter, (ast.Tuple, ast.List)) or not isinstance(loops[0].target, ast.Name):
+            raise Unsupported("_load_repo_ignores: loop shape")
+        lp = loops[0]
+        var = lp.target.id
+        elems = [_const_str(e) for e in lp.iter.elts]
+        body = ast.unparse(lp)
+        if None in elems or f"project_root / {var}" not in body or "if config_file.exists():" not in body or \
+                not any(isinstance(n, ast.Break) for n in ast.walk(lp)) or "_parse_config_file(config_file)" not in body:
+            raise Unsupported("_load_repo_ignores: config loop shape")
+        names = names + elems
+    else:
+        src = ast.unparse(f)
+        if src.count("return _parse") != 2:
+            raise Unsupported("_load_repo_ignores: early-return shape")
+    if not names or names[0] != ".thailintignore":
+        raise Unsupported(f"_load_repo_ignores: file names {names}")
     g = find_func(parse("src/linter_config/ignore.py"), "_extract_ignore_patterns")
     keys = [_const_str(n.args[0]) for n in ast.walk(g) if isinstance(n, ast.Call) and isinstance(n.func, ast.Attribute) and n.func.attr == "get" and n.args]
     if len(keys) != 1 or keys[0] is None:
         raise Unsupported("_extract_ignore_patterns: key")
+    pc = ast.unparse(find_func(parse("src/linter_config/ignore.py"), "_parse_config_file"))
+    if "yaml.safe_load(" not in pc or "_extract_ignore_patterns(config)" not in pc:
+        raise Unsupported("_parse_config_file shape")
     o = _func_in_class("src/orchestrator/core.py", "Orchestrator", "lint_file")
     if "if self.ignore_parser.is_ignored(file_path):" not in ast.unparse(o):
         raise Unsupported("Orchestrator.lint_file: ignore check")
@@ -239,6 +260,17 @@ def _scan_lookup(fn_node):
                 events.append((n.lineno, n.col_offset, k))
         if isinstance(n, ast.Subscript) and ast.unparse(n.value) in _DICT_NAMES and _const_str(n.slice) is not None and isinstance(n.ctx, ast.Load):
             events.append((n.lineno, n.col_offset, _const_str(n.slice)))
+        if isinstance(n, ast.Assign) and ast.unparse(n.targets[0]) == "key":
+            v = n.value
+            ok = (isinstance(v, ast.IfExp) and _const_str(v.body) is not None and _const_str(v.orelse) is not None
+                  and isinstance(v.test, ast.Compare) and len(v.test.ops) == 1 and isinstance(v.test.ops[0], ast.In)
+                  and _const_str(v.test.left) == _const_str(v.body)
+                  and ast.unparse(v.test.comparators[0]) in ("getattr(context, 'metadata', {})", "context.metadata", "metadata"))
+            if not ok:
+                raise Unsupported("computed lookup key of an unknown shape")
+            events.append((n.lineno, n.col_offset, _const_str(v.body)))      # looked up when present ...
+            events.append((n.lineno, n.col_offset + 1, _const_str(v.orelse)))  # ... else this one
+            uses_meta = True
         if isinstance(n, ast.Assign) and ast.unparse(n.targets[0]) == "config_keys" and isinstance(n.value, ast.Tuple):
             for e in n.value.elts:
                 if _const_str(e) is None:
